@@ -1081,6 +1081,49 @@ RULES.setdefault("C18", []).append(Rule("C18.R13", "a result cache of the resolv
                                         "get_record by string, by QualifiedName and by full URI keep agreeing after the document's namespaces change"))
 
 
+def registrar_total_rule(ctx: Ctx, rule):
+    """Clause (b): a clash yields a fresh prefix - registering a namespace never fails, and it is all-or-nothing.  In
+    NamespaceManager.add_namespace and the private methods it delegates to there is no `raise`, and nothing that raises under a
+    stricter run-time configuration (`warnings.warn` under -W error, `assert` without -O) stands between the first and the last
+    store of one registration: update(), flattened() and every reader register namespaces from several sources, three sources that
+    want one prefix are as legal as two, and a registration interrupted half-way leaves the renamed-namespace memo pointing at a
+    namespace that was never bound."""
+    res = RuleResult()
+    aq = NSM + ".add_namespace"
+    if aq not in ctx.p.functions:
+        raise AnalysisError("anchor vanished: %s" % aq)
+    n = 0
+    for q in ctx.helper_closure(aq, 2):
+        if not q.startswith(NSM + "."):
+            continue
+        fi = ctx.fn(q)
+        for x in walk_function(fi.node):
+            what = None
+            if isinstance(x, ast.Raise):
+                what = "raise %s" % (norm(x.exc)[:40] if x.exc is not None else "")
+            elif isinstance(x, ast.Assert):
+                what = "assert %s" % norm(x.test)[:40]
+            elif isinstance(x, ast.Call):
+                r = ctx.p.resolve_dotted(fi.module, x.func) if dotted(x.func) else None
+                if r and r[0] == "ext" and r[1] in ("warnings.warn", "warnings.warn_explicit"):
+                    what = "warnings.warn(..) (an exception under -W error)"
+            if what is None:
+                continue
+            n += 1
+            res.ob("%s: %s" % (short(q), what))
+            res.fail(rule.id, "registration-can-fail::%s" % q, ctx.loc(q, x),
+                     "%s can fail with `%s`: registering a namespace is total (a clash is answered with a fresh prefix) and all-or-nothing" % (short(q), what),
+                     "three sources binding one prefix to three URIs (update() / flattened() / a reader): the third registration raises and leaves the target half updated; or, interrupted between its stores, the manager hands out a prefix it never declared")
+    res.ob("statements that can make a registration fail in %s and its helpers: %d" % (short(aq), n))
+    return res
+
+
+RULES.setdefault("C03", []).append(Rule("C03.R15", "registering a namespace never fails and is all-or-nothing: no raise / assert / warnings.warn in add_namespace and its helpers", 1, registrar_total_rule, "F-PATH",
+                                        "clause (b): a clashing prefix yields a fresh prefix, however many times it has clashed before"))
+RULES.setdefault("C09", []).append(Rule("C09.R16", "registering a namespace never fails (shared with C03.R15): merging sources that want one prefix always succeeds", 1, registrar_total_rule, "F-PATH",
+                                        "flattened() / update() / add_bundle() of any number of sources with clashing prefixes return their result"))
+
+
 def _with_inlined_manager(fn):
     def run(ctx, rule):
         from ..inline import inlined_view
